@@ -4,7 +4,7 @@ CONSTANTS
   MAX = 3
   MaxWrites = @@MAXW@@
   MaxInj = @@MAXI@@
-  InjKinds = {"fd", "fds", "fe", "fes", "unk"}
+  InjKinds = {"fd", "fdn", "fds", "fe", "fen", "fes", "unk"}
   RSizes = {"one", "small", "big"}
   Gen = TRUE
   Emit = TRUE
